@@ -258,6 +258,10 @@ def todo_analysis(ctx):
                 return None
             blocks, decided = cells.feasible(body, cprov, ev)
             if blk.idx in blocks:
+                # values drawn through Iterator::filter: kinds the closure rejects do not reach the site
+                if flow.mentions(arg, lambda s: s[0] == "call" and (s[1] or "").endswith("::filter")) and \
+                        cells.filter_verdict(facts, body, cprov, ev) is False:
+                    continue
                 reach.append(name)
         hit = sorted(set(reach) & set(bad))
         rows.append((body, blk, hit, sorted(reach)))
